@@ -6,6 +6,8 @@ package main
 
 import (
 	"fmt"
+	"os"
+	"runtime/debug"
 	"go/constant"
 	"go/token"
 	"go/types"
@@ -43,6 +45,14 @@ func (s *State) clone() *State {
 		n.ghost[k] = v
 	}
 	return n
+}
+
+type Cover struct {
+	Name   string
+	prefix int
+	pc     string
+	smt    *SMT
+	Result *SolverResult
 }
 
 type Obligation struct {
@@ -126,7 +136,9 @@ type Exec struct {
 	inlined   map[string]bool
 	noInline  bool
 	topFrame     *Frame
+	alloc0       string
 	quantDepth   int
+	covers       []*Cover
 	wantLiveness bool
 	livenessTag  []string
 }
@@ -227,6 +239,9 @@ func (x *Exec) heapWrite(st *State, prefix, sort, base, index, val string) {
 }
 
 func (st *State) markDirty(prefix string) {
+	if d := os.Getenv("GOCV_DEBUG_DIRTY"); d != "" && strings.HasPrefix(prefix, d) && !st.dirty[prefix] {
+		fmt.Fprintf(os.Stderr, "DIRTY %s\n%s\n", prefix, debug.Stack())
+	}
 	if st.dirty == nil {
 		st.dirty = map[string]bool{}
 	}
@@ -308,7 +323,8 @@ func (x *Exec) allocRef(st *State, hint string) string {
 	x.freshRefs[r] = true
 	na := x.smt.Fresh("alloc", SRef)
 	x.smt.Assert(eq(na, app("bvadd", st.alloc, "#x00000001")))
-	x.smt.Assert(implies(st.pc, app("bvult", st.alloc, "#x7fffff00")))
+	x.smt.Assert(app("bvult", st.alloc, "#x7fffff00"))
+	x.smt.Assert(and(app("bvult", st.alloc, na), app("bvult", x.alloc0, na)))
 	st.alloc = na
 	return r
 }
@@ -318,6 +334,7 @@ func (x *Exec) bumpAlloc(st *State) {
 	na := x.smt.Fresh("alloc", SRef)
 	x.smt.Assert(app("bvuge", na, st.alloc))
 	x.smt.Assert(app("bvult", na, "#x7fffff00"))
+	x.smt.Assert(app("bvuge", na, x.alloc0))
 	st.alloc = na
 }
 
@@ -381,6 +398,7 @@ func (x *Exec) makeIface(st *State, it types.Type, v Val) Val {
 		r.T = it
 		return r
 	}
+	v.T = types.Default(v.T)
 	tag := x.typeID(v.T)
 	var term string
 	ss := scalarSort(v.T)
@@ -827,6 +845,13 @@ func (x *Exec) enterLoop(fr *Frame, b *ssa.BasicBlock, li *loopInfo, edges []edg
 	x.smt.Assert(implies(pch, se.pc))
 	sh.pc = pch
 	eff := x.loopModSet(fr, li)
+	if os.Getenv("GOCV_DEBUG_LOOP") != "" {
+		var ats []string
+		for _, e := range eff.at {
+			ats = append(ats, e.region+"@"+e.base.Name())
+		}
+		fmt.Fprintf(os.Stderr, "LOOP %s #%d whole=%v at=%v ghosts=%v all=%v\n", fr.fn.Name(), li.index, sortedKeys(eff.whole), ats, sortedKeys(eff.ghosts), eff.all)
+	}
 	matches := func(hk, k string) bool {
 		return hk == k || strings.HasPrefix(hk, k+".") || strings.HasPrefix(hk, k+"#") || strings.HasPrefix(hk, k+":")
 	}
@@ -892,7 +917,7 @@ func (x *Exec) enterLoop(fr *Frame, b *ssa.BasicBlock, li *loopInfo, edges []edg
 		}
 	}
 	na := x.smt.Fresh("alloc", SRef)
-	x.smt.Assert(and(app("bvuge", na, se.alloc), app("bvult", na, "#x7fffff00")))
+	x.smt.Assert(and(app("bvuge", na, se.alloc), app("bvult", na, "#x7fffff00"), app("bvuge", na, x.alloc0)))
 	sh.alloc = na
 	for _, phi := range phis {
 		fr.vals[phi] = x.freshVal(sh, "loop."+phi.Name(), phi.Type())
@@ -985,9 +1010,17 @@ func (x *Exec) edgeLabel(from *ssa.BasicBlock) string {
 
 func (x *Exec) execBlock(fr *Frame, b *ssa.BasicBlock, st *State, in map[*ssa.BasicBlock][]edgeState, loops map[*ssa.BasicBlock]*loopInfo) {
 	fr.curBlock = b
+	if fr.top && os.Getenv("GOCV_COVER_BLOCKS") != "" {
+		x.cover(st, fmt.Sprintf("%s/cover.block%d.%s", x.prog.relName(fr.fn), b.Index, b.Comment))
+	}
 	for _, instr := range b.Instrs {
 		if _, ok := instr.(*ssa.Phi); ok {
 			continue
+		}
+		if fr.top && os.Getenv("GOCV_COVER_BLOCKS") != "" {
+			if _, isCall := instr.(*ssa.Call); isCall {
+				x.cover(st, x.siteName(fmt.Sprintf("%s/cover.before@%s", x.prog.relName(fr.fn), x.srcText(instr))))
+			}
 		}
 		if st.dead {
 			return
@@ -1035,8 +1068,13 @@ func (x *Exec) flow(fr *Frame, from, to *ssa.BasicBlock, st *State, in map[*ssa.
 	in[to] = append(in[to], edgeState{st, from})
 }
 
+func (x *Exec) cover(st *State, name string) {
+	x.covers = append(x.covers, &Cover{Name: name, prefix: len(x.smt.asserts), pc: st.pc, smt: x.smt})
+}
+
 func (x *Exec) doReturn(fr *Frame, st *State, rs []Val, ret *ssa.Return) {
 	if fr.top {
+		x.cover(st, x.siteName(fmt.Sprintf("%s/cover.return", x.prog.relName(fr.fn))))
 		x.checkEnsures(fr, st, rs, ret)
 		return
 	}
